@@ -1,5 +1,6 @@
 import XcpProofs.Perm
 import XcpProofs.L0Fs
+import XcpProofs.MirrorConc
 import XcpProofs.PoolInv
 import XcpProofs.ParfileInv
 import XcpProps.C01
@@ -36,9 +37,11 @@ count / queue capacity:
   `mkdir`, nobody writes into another's source) — provided each queued operation is `GoodAll` when handed over
   (plain target with existing parent directory, plain existing source, no symbolic link above any target).
 
-What is NOT proved: that the walker of a real tree establishes `GoodAll` at every hand-over (it follows from
-"mkdir first in its subtree" and the frame theorems for link-free destinations, but the induction over the tree
-is not done), and the bridge from the real thread structure to `Xcp.L0` (transcribed from the source); both
+  The hand-over hypothesis is DISCHARGED for a fresh target (`fresh_destination_any_interleaving`): there no interleaving
+  can make an operation fail and every complete run ends with exactly the source tree at the target.
+
+What is NOT proved: that the walker establishes `GoodAll` at every hand-over for destinations that already exist
+(merged directories, several sources), and the bridge from the real thread structure to `Xcp.L0` (transcribed from the source); both
 are checked on every real run instead (per-target call order by the monitor, mkdir-before-children and
 equality of end states across schedules, worker counts and drivers, and against `L1run`).  Two recorded findings show where the
 statement itself fails on the unchanged code: two sources mapping onto one target (F10) and the partial state
@@ -130,6 +133,24 @@ theorem two_interleavings_agree (c : Cfg) (fs0 : Fs) (ops : List Op)
   rw [ha] at hb
   cases hb
   exact (L0.fs_commutes c ops).trans _ _ _ ((L0.fs_commutes c ops).symm _ _ ea) eb
+
+/-- the hand-over hypothesis DISCHARGED for a fresh target: for the operations the walker emits for any copyable source
+tree and an absent target whose parent exists, NO interleaving can make an operation fail, and every complete run of
+the concurrent model — any worker count, either driver — ends with exactly the source tree at the target -/
+theorem fresh_destination_any_interleaving (fs : Fs) (c : Cfg) (hd : c.dereference = false) (hn : c.noClobber = false)
+    (src tb : RPath) (srcNode : Node) (fuel : Nat)
+    (hwf : FsEq fs fs) (hroot : fs.root.isDir = true)
+    (hsrc : PlainTarget fs src) (hsn : fs.root.getAt src.names = some srcNode)
+    (hcop : srcNode.Copyable fuel)
+    (htb : PlainTarget fs tb) (hne : tb.names ≠ []) (habs : fs.root.getAt tb.names = none)
+    (hpar : ∃ es, fs.root.getAt tb.names.dropLast = some (.dir es))
+    (hun1 : ¬ src.names <+: tb.names) (hun2 : ¬ tb.names <+: src.names)
+    (hlen : src.names.length + fuel < 200 ∧ tb.names.length + fuel < 200)
+    (ls : List L0.Label) (s : L0.St) (hrun : L0.run c (L0.init fs (freshOps fs c src tb fuel)) ls = some s) :
+    s.failed = false ∧
+    (L0.final s = true → FsEq s.fs { fs with root := fs.root.setAt tb.names srcNode }) := by
+  have hok := mirror_fresh_never_fails fs c hd hn src tb srcNode fuel hwf hroot hsrc hsn hcop htb hne habs hpar hun1 hun2 hlen ls s hrun
+  exact ⟨hok, fun hfin => mirror_fresh_concurrent fs c hd hn src tb srcNode fuel hwf hroot hsrc hsn hcop htb hne habs hpar hun1 hun2 hlen ls s hrun hfin hok⟩
 
 /-- the totals of the update stream of a failure-free run are the same on every schedule -/
 theorem update_totals_schedule_independent (files : List Nat) (s1 s2 : Status.St)
